@@ -2,12 +2,17 @@ import KoordVerif.Common.Proto
 import KoordVerif.Model.C04
 /-
 Driver for C04.  A case is one history on one PodGroupManager + fake framework handle.
-  pgadd  g min pol mode shape k g1..gk   onPodGroupAdd      (shape of the groups annotation: 0 absent 1 "" 2 null
-  pgupd  g min pol mode shape k g1..gk   onPodGroupUpdate    3 [] 4 JSON list g1..gk 5 not JSON; k = 0 unless shape 4)
+  args   d                               the manager was built with CoschedulingArgs.DefaultMatchPolicy = d (0 only-waiting
+                                         1 waiting-and-running 2 once-satisfied 3 ""); only before the first op; absent = 2
+  pgadd  g min pol alias mode shape k g1..gk   onPodGroupAdd   (pol / alias: the match-policy annotation and its alias,
+  pgupd  g min pol alias mode shape k g1..gk   onPodGroupUpdate 0..2 legal 3 absent 4 other string 5 ""; mode: 0 NonStrict
+                                         1 Strict 2 absent 3 other string 4 "" 5 / 6 Strict / NonStrict in another letter
+                                         case; shape of the groups annotation: 0 absent 1 "" 2 null 3 [] 4 JSON list
+                                         g1..gk 5 not JSON; k = 0 unless shape 4)
   pgdel  g [shape]                       onPodGroupDelete   (shape: what the registered handler's OnDelete was given — 0 the
                                                              object, 1 a DeletedFinalStateUnknown by value, 2 a shape the
                                                              code ignores; absent = direct call with the object)
-  podadd p g node 0 anno [minOK min pol mode shape k g1..gk]    onPodAdd    (anno=1: annotation way, config follows)
+  podadd p g node 0 anno [minOK min pol alias mode shape k g1..gk]    onPodAdd    (anno=1: annotation way, config follows)
   podupd p g node term anno [...]        onPodUpdate (term=1: terminated pod)
   poddel p g [shape]                     onPodDelete        (shape as for pgdel)
   permit p g | unres p g | postbind p g | postfilter p g
@@ -44,10 +49,11 @@ def dump (s : State) (o : Out) : List String :=
     ++ [s!"fw {fw.length}" ++ String.join (fw.map fun e => s!" {e.1} {e.2}")]
 
 def parseCfg : List Int → Option Cfg
-  | mn :: pol :: mode :: shape :: k :: rest =>
-    if rest.length = k.toNat ∧ 0 ≤ pol ∧ 0 ≤ mode ∧ 0 ≤ shape ∧ shape ≤ 5 ∧ 0 ≤ k ∧ (shape = 4 ∨ k = 0)
-        ∧ rest.all (fun x => decide (0 ≤ x)) then
-      some { min := mn, policy := pol.toNat, mode := mode.toNat, group := rest.map Int.toNat, gshape := shape.toNat }
+  | mn :: pol :: al :: mode :: shape :: k :: rest =>
+    if rest.length = k.toNat ∧ 0 ≤ pol ∧ pol ≤ 5 ∧ 0 ≤ al ∧ al ≤ 5 ∧ 0 ≤ mode ∧ mode ≤ 6 ∧ 0 ≤ shape ∧ shape ≤ 5 ∧ 0 ≤ k
+        ∧ (shape = 4 ∨ k = 0) ∧ rest.all (fun x => decide (0 ≤ x)) then
+      some { min := mn, policy := pol.toNat, palias := al.toNat, mode := mode.toNat, group := rest.map Int.toNat,
+             gshape := shape.toNat }
     else none
   | _ => none
 
@@ -94,6 +100,11 @@ def stepLine (st : State × List String) (line : String) : State × List String 
   let (s, out) := st
   match toks line with
   | "#" :: _ => (s, out)
+  | ["args", d] =>
+    -- NewGangCache(args, …): only a manager that has seen nothing yet can be (re)built
+    match d.toNat? with
+    | some n => if s = init ∧ out = [] ∧ n ≤ 3 then (initWith n, out) else (s, out ++ ["bad-op"])
+    | none => (s, out ++ ["bad-op"])
   | ["nogang", k, _] =>
     -- util.IsPodNeedGang(pod) = false: Permit answers PodGroupNotSpecified (3), the others return at once
     (s, out ++ dump s { verdict := if k = "0" then 3 else 9 })
